@@ -223,6 +223,7 @@ type rtClient struct {
 	unreg   map[int]dials.UnregisterCBFunc
 	mu      sync.Mutex
 	lastRet string
+	retAt   int
 }
 
 type rtDelivery struct {
